@@ -1564,7 +1564,7 @@ FINGERPRINTS = {
     "sources.Source.generate_emissions": "80d6dd6e4ca5ee7a",
     "emissions_source_processing.EmissionsSource.unit_conversion": "ef375a8e15527598",
     "emissions_source_processing.EmissionsSourceSample": "369d58f8a0f3fcf0",
-    "emissions_source_processing.EmissionsSourceDist.get_a_rate": "364a05f26a62576d",
+    "emissions_source_processing.EmissionsSourceDist.get_a_rate": "1c206a336f38d3be",
 }
 
 
